@@ -81,7 +81,7 @@ theorem env_group_letters : ∀ n < 52, ∃ c, envNumToChar n = some c ∧ admis
 
 /-! ## grouping -/
 
-private theorem mem_firstOccurrences (l : List (List Nat)) (x : List Nat) :
+theorem mem_firstOccurrences (l : List (List Nat)) (x : List Nat) :
     x ∈ firstOccurrences l ↔ x ∈ l := by
   induction l with
   | nil => simp [firstOccurrences]
@@ -122,7 +122,7 @@ private theorem nodup_insertKey (k : List Nat) (l : List (List Nat)) (hk : k ∉
       · exact hk (by simp)
       · exact hy.1 hm
 
-private theorem mem_sortKeys (l : List (List Nat)) (x : List Nat) : x ∈ sortKeys l ↔ x ∈ l := by
+theorem mem_sortKeys (l : List (List Nat)) (x : List Nat) : x ∈ sortKeys l ↔ x ∈ l := by
   induction l with
   | nil => simp [sortKeys]
   | cons k ks ih => simp [sortKeys, mem_insertKey, ih]
@@ -191,7 +191,7 @@ theorem suffix_determined (x1 x2 e1 e2 : Nat) :
 
 /-! ## weighted means -/
 
-private theorem dot_bounds (ws xs : List Rat) (lo hi : Rat) (hl : ws.length = xs.length)
+theorem dot_bounds (ws xs : List Rat) (lo hi : Rat) (hl : ws.length = xs.length)
     (hw : ∀ w ∈ ws, 0 ≤ w) (hx : ∀ x ∈ xs, lo ≤ x ∧ x ≤ hi) :
     lo * rsum ws ≤ dot ws xs ∧ dot ws xs ≤ hi * rsum ws := by
   induction ws generalizing xs with
@@ -218,7 +218,7 @@ theorem wmean_between_min_max (ws xs : List Rat) (lo hi : Rat) (hl : ws.length =
 
 example : wmean [1, 3] [2, 4] = 7 / 2 := by decide +kernel
 
-private theorem dot_const (ws xs : List Rat) (c : Rat) (hl : ws.length = xs.length)
+theorem dot_const (ws xs : List Rat) (c : Rat) (hl : ws.length = xs.length)
     (hx : ∀ x ∈ xs, x = c) : dot ws xs = c * rsum ws := by
   induction ws generalizing xs with
   | nil => simp [dot, rsum]
@@ -238,12 +238,12 @@ theorem wmean_of_equal (ws xs : List Rat) (c : Rat) (hl : ws.length = xs.length)
   rw [dot_const ws xs c hl hx]
   field_simp
 
-private theorem rsum_append (a b : List Rat) : rsum (a ++ b) = rsum a + rsum b := by
+theorem rsum_append (a b : List Rat) : rsum (a ++ b) = rsum a + rsum b := by
   induction a with
   | nil => simp [rsum]
   | cons x xs ih => simp only [rsum, List.cons_append, List.foldr_cons] at *; rw [ih]; ring
 
-private theorem dot_append (ws xs ws' xs' : List Rat) (hl : ws.length = xs.length) :
+theorem dot_append (ws xs ws' xs' : List Rat) (hl : ws.length = xs.length) :
     dot (ws ++ ws') (xs ++ xs') = dot ws xs + dot ws' xs' := by
   induction ws generalizing xs with
   | nil =>
@@ -266,12 +266,12 @@ theorem wmean_dup_invariant (ws xs : List Rat) (hl : ws.length = xs.length) :
   have h2 : rsum ws + rsum ws = 2 * rsum ws := by ring
   rw [this, h2, mul_div_mul_left _ _ (two_ne_zero)]
 
-private theorem rsum_scale (k : Rat) (ws : List Rat) : rsum (ws.map (k * ·)) = k * rsum ws := by
+theorem rsum_scale (k : Rat) (ws : List Rat) : rsum (ws.map (k * ·)) = k * rsum ws := by
   induction ws with
   | nil => simp [rsum]
   | cons w ws ih => simp only [rsum, List.map_cons, List.foldr_cons] at *; rw [ih]; ring
 
-private theorem dot_scale (k : Rat) (ws xs : List Rat) : dot (ws.map (k * ·)) xs = k * dot ws xs := by
+theorem dot_scale (k : Rat) (ws xs : List Rat) : dot (ws.map (k * ·)) xs = k * dot ws xs := by
   induction ws generalizing xs with
   | nil => simp [dot]
   | cons w ws ih =>
